@@ -42,7 +42,7 @@ theorem scanRoots_oof (g : State) (hw : WF g) (hr : RootsOk g) : (scanRoots g).o
   (scanRoots_phase List.nodup_range g (fun r h => List.mem_range.mpr (hr r h)) hw.closed).1.oof
     (fuel_ok g).1 (fuel_ok g).2
 
-theorem collectRoots_oof (g : State) (hw : WF g) (hr : RootsOk g) :
+theorem collectRoots_oof_c (g : State) (hw : WF g) (hr : RootsOk g) :
     (collectRoots g).oof = g.oof :=
   (collectRoots_trace_calls_le List.nodup_range g (fun r h => List.mem_range.mpr (hr r h))
     hw.closed).2.2 (fuel_ok g).1 (fuel_ok g).2
@@ -63,7 +63,7 @@ theorem onePass_oof (g : State) (hw : WF g) (hr : RootsOk g) : (onePass g).oof =
   unfold onePass
   have h1 := markRoots_wf g hw hr
   have h2 := scanRoots_wf _ h1.1 h1.2
-  rw [collectRoots_oof _ h2.1 h2.2, scanRoots_oof _ h1.1 h1.2, markRoots_oof g hw hr]
+  rw [collectRoots_oof_c _ h2.1 h2.2, scanRoots_oof _ h1.1 h1.2, markRoots_oof g hw hr]
 
 /-! ### the pass loop -/
 
@@ -208,7 +208,7 @@ theorem decRef_rel (N : Nat) (g : State) (n : Nat) (hn : n < N) : FreeRel N g (d
       fun i => Or.inl (hnode i).2.1,
       fun i t h => by rw [(hnode i).2.2] at h; exact h, fun r h => Or.inl h⟩
 
-theorem decRef_freed (g : State) (n i : Nat) :
+theorem decRef_freed_c (g : State) (n i : Nat) :
     ((decRef g n).nodes.get i).freed = (g.nodes.get i).freed := by
   have := decRef_node g n i
   simp only [State.node] at this
@@ -221,11 +221,11 @@ theorem foldl_decRef_freed (l : List Nat) (g : State) (i : Nat) :
     ((l.foldl decRef g).nodes.get i).freed = (g.nodes.get i).freed := by
   induction l generalizing g with
   | nil => rfl
-  | cons a t ih => rw [List.foldl_cons, ih, decRef_freed]
+  | cons a t ih => rw [List.foldl_cons, ih, decRef_freed_c]
 
 theorem free_freed (g : State) (n i : Nat) :
     ((free g n).nodes.get i).freed = if i = n then true else (g.nodes.get i).freed := by
-  rw [free_eq]
+  rw [free_eq_c]
   split
   · rw [foldl_decRef_freed]
     by_cases hi : i = n
@@ -236,7 +236,7 @@ theorem free_freed (g : State) (n i : Nat) :
     · simp [State.upd, Store.get_set, hi]
 
 theorem free_rel (N : Nat) (g : State) (n : Nat) (hb : Bounded N g) : FreeRel N g (free g n) := by
-  rw [free_eq]
+  rw [free_eq_c]
   split
   · have hnode : ∀ i,
         let g2 : State := { ((g.upd n fun x => { x with freed := true }).upd n fun x =>
@@ -354,7 +354,7 @@ theorem collectRoots_pass (g : State) (N : Nat) (hb : Bounded N g) :
     (collectRoots g).toBeFreed = [] ∧ unfreed N (collectRoots g) ≤ unfreed N g ∧
     (unfreed N (collectRoots g) = unfreed N g → (collectRoots g).roots = []) ∧
     totalEdges (collectRoots g) ≤ totalEdges g := by
-  rw [collectRoots_eq]
+  rw [collectRoots_eq_c]
   simp only []
   have hb0 : Bounded N { g with roots := [] } :=
     ⟨hb.traced, hb.owned, fun r hr => (by cases hr), hb.tbf⟩
